@@ -27,8 +27,10 @@ class TracesParser:
             DgbFuncQual.DBG_FUNC_ALL.value: self._feed_single_event,
             DgbFuncQual.DBG_FUNC_NONE.value: self._feed_single_event,
         }
-        self.last_data_newthread = None
-        self.last_data_exec = None
+        # The string record that names a new thread's / exec'ed process follows the data record of the same thread,
+        # events of other threads may be interleaved between them.
+        self.last_data_newthread = {}
+        self.last_data_exec = {}
         self.handlers = {}
         self.handlers.update(bsd_handlers)
         self.handlers.update(dyld_handlers)
